@@ -711,13 +711,22 @@ def child_env(hashseed):
 
 
 def run_children(jobs, hashseeds, rng, scratch, seeds=None):
-    """returns {hashseed: {job id: dump}}; `seeds` ("<child index>/<job id>" -> [key seed, file order seed]) is filled
-    with the permutation seeds used, or says which ones to use again"""
+    """returns {hashseed: {job id: dump}}; `seeds` ("<child index>/<job id>" -> [key seed, file order seed],
+    "order/<child index>" -> [seed of the order in which that child loads the jobs, 0]) is filled with the
+    permutation seeds used, or says which ones to use again"""
     procs = []
     seeds = {} if seeds is None else seeds
     for idx, hs in enumerate(hashseeds):
         js = []
-        for j in jobs:
+        # process-level state shared between independent loads: every child but the first loads the packages in
+        # another order (a result that depends on what was loaded before shows as a difference between processes)
+        okey = "order/%d" % idx
+        if okey not in seeds:
+            seeds[okey] = [rng.randrange(1 << 30), 0]
+        jobs_here = list(jobs)
+        if idx > 0:
+            random.Random(seeds[okey][0]).shuffle(jobs_here)
+        for j in jobs_here:
             j2 = dict(j)
             key = "%d/%s" % (idx, j["id"])
             if key not in seeds:
@@ -847,12 +856,25 @@ def difference_reproduces(job, hashseeds, seeds, scratch):
     the machine (a swallowed OSError or MemoryError under load, ...) does not"""
     d = tempfile.mkdtemp(prefix="confirm-", dir=scratch)
     try:
-        sub = {k: v for k, v in seeds.items() if k.split("/", 1)[1] == job["id"]}
+        sub = {k: v for k, v in seeds.items() if k.split("/", 1)[1] == job["id"] or k.startswith("order/")}
         r2 = run_children([job], hashseeds, None, d, seeds=sub)
         first = strip_private(r2[hashseeds[0]][job["id"]])
         return any(strip_private(r2[hs][job["id"]]) != first for hs in hashseeds[1:])
     finally:
         shutil.rmtree(d, ignore_errors=True)
+
+
+def whole_run_again(jobs, hashseeds, seeds, scratch, cache, job, hs_a, hs_b):
+    """all the packages once more, in the same per-child orders and with the same seeds (done once per check_jobs):
+    does `job` differ again between the two processes?"""
+    if "_whole" not in cache:
+        d = tempfile.mkdtemp(prefix="confirm-all-", dir=scratch)
+        try:
+            cache["_whole"] = run_children(jobs, hashseeds, None, d, seeds=seeds)
+        finally:
+            shutil.rmtree(d, ignore_errors=True)
+    r = cache["_whole"]
+    return strip_private(r[hs_a][job["id"]]) != strip_private(r[hs_b][job["id"]])
 
 
 def check_jobs(ctx, jobs, hashseeds, scratch, record=True):
@@ -904,6 +926,18 @@ def check_jobs(ctx, jobs, hashseeds, scratch, record=True):
                 if confirmed.get(slug, 0) < 2:
                     if difference_reproduces(job, hashseeds, seeds, scratch):
                         confirmed[slug] = confirmed.get(slug, 0) + 1
+                    elif whole_run_again(jobs, hashseeds, seeds, scratch, confirmed, job, hashseeds[0], hs):
+                        # alone the package loads the same in every process: the difference needs the packages that
+                        # were loaded before it (every child loads them in another order)
+                        failures.append(("result-depends-on-earlier-cases", case,
+                                         {"hashseed_a": hashseeds[0], "hashseed_b": hs, "differences": d,
+                                          "note": "needs the other packages of the run: re-run ./check C15 with the "
+                                                  "same --seed and tier (a replay of this package alone passes)",
+                                          "orders": "child 0 loads the packages in the order generated, every other "
+                                                    "child in an order shuffled with seeds['order/<child>']",
+                                          "load_order_seeds": {k: v[0] for k, v in seeds.items()
+                                                               if k.startswith("order/")}}))
+                        break
                     else:
                         ctx.tag("difference-not-reproduced-with-the-same-seeds")
                         ctx.notes.append("C15: job %s differed between child processes (%s) but not when run again with "
